@@ -838,10 +838,82 @@ pub fn c10_closed_unanswered_counts(rec: &mut Rec, rng: &mut Rng, leave: usize) 
     sim.w.teardown();
 }
 
+/// at capacity, several clients are already waiting in the listener's backlog when a client with an unanswered
+/// request leaves; the application answers between two polls. Each waiting client must end up either refused with
+/// the complete 503 message or accepted and served — never cut off with nothing (the batch of one poll can hold the
+/// listener event AND the hang-up of the connection that is being released).
+pub fn c10_waiting_at_release(rec: &mut Rec, rng: &mut Rng, waiting: usize, answer_before_first_poll: bool, leave: usize) {
+    rec.case("capacity-waiting-at-release");
+    rec.nontrivial();
+    let mut cfg = Cfg::base("C10");
+    cfg.max_clients = 16;
+    let mut sim = Sim::new(rec, cfg);
+    for _ in 0..10 {
+        sim.connect(rec);
+        sim.poll(rec);
+    }
+    let a = rng.below(10);
+    sim.send_next(rec, rng, a);
+    while !sim.plans[a].outq.is_empty() {
+        sim.send_next(rec, rng, a);
+    }
+    for _ in 0..4 {
+        sim.poll(rec);
+    }
+    // the newcomers connect BEFORE the departure: the listener is queued ahead of the hang-up
+    let newcomers: Vec<usize> = (0..waiting).map(|_| sim.connect(rec)).collect();
+    match leave {
+        0 => sim.w.close(rec, a),
+        1 => sim.w.shutdown(rec, a, Shutdown::Write),
+        _ => sim.w.shutdown(rec, a, Shutdown::Both),
+    }
+    if answer_before_first_poll {
+        while !sim.w.held.is_empty() {
+            sim.respond(rec, rng, 0);
+        }
+    }
+    sim.poll(rec);
+    while !sim.w.held.is_empty() {
+        sim.respond(rec, rng, 0);
+    }
+    for _ in 0..(waiting + 2) {
+        sim.poll(rec);
+    }
+    for &x in &newcomers {
+        sim.w.client_read(rec, x);
+        let c = &sim.w.clients[x];
+        let got_503 = c.received == SERVER_FULL;
+        let served = c.accepted && c.received.is_empty();
+        if !(got_503 || served) {
+            rec.oracle_fail("C10", &format!("a client that connected at capacity was neither refused with the 503 message nor accepted: accepted={} refused={} received={}", c.accepted, c.refused, hx(&c.received)), &sim.w.log);
+        }
+    }
+    // an accepted newcomer is really served
+    for &x in &newcomers {
+        if sim.w.clients[x].accepted && sim.w.clients[x].sock.is_some() {
+            sim.send_next(rec, rng, x);
+            while !sim.plans[x].outq.is_empty() {
+                sim.send_next(rec, rng, x);
+            }
+        }
+    }
+    sim.settle(rec, rng);
+    common_checks(rec, &mut sim, "C10");
+    check_yield_once(rec, &sim);
+    sim.w.teardown();
+}
+
 pub fn c10(rec: &mut Rec, rng: &mut Rng, thorough: bool) {
     regress_f3(rec, rng);
     for leave in 0..3 {
         c10_closed_unanswered_counts(rec, rng, leave);
+    }
+    for waiting in 1..=3 {
+        for before in [false, true] {
+            for leave in 0..(if thorough { 3 } else { 1 }) {
+                c10_waiting_at_release(rec, rng, waiting, before, leave);
+            }
+        }
     }
     let n = if thorough { 800 } else { 40 };
     for k in 0..n {
